@@ -230,3 +230,5 @@ func init() {
 	core.Register("C01", genC01, Run)
 	core.Register("C02", genC02, Run)
 }
+
+func simnetFault(kind string, conn int) simnet.Fault { return simnet.Fault{Kind: kind, Conn: conn} }
